@@ -521,66 +521,6 @@ Proof.
   assert (nonzero_atol <= 1 / q) as At by (apply Qle_shift_div_l; lra). lra.
 Qed.
 
-Theorem unbiased_partial probs perms q ids c :
-  valid probs -> sorting_perms_b probs perms = true -> nonzero_atol * q <= 1 ->
-  no_entry_in_cutoff probs perms (1 / q) ->
-  gen_core probs perms (Fin q) = Ok c ->
-  (forall mins ret cond wts0 rs,      (* the single-leftover shortcut is not taken *)
-      all_some (map min_filter_nonzero probs) = Some mins -> ~ 1 / q <= qprod mins ->
-      dfs_acc probs perms q = (ret, cond, wts0) -> (1 <= Qceiling (wts0 * q))%Z ->
-      leftover_walk probs cond [] = Some (Some rs) -> False) ->
-  in_range probs ids ->
-  expected_weight probs perms (Fin q) ids == q * jointp probs ids.
-Proof.
-  intros V S A [Cl Ct] G NL R. apply in_range_idx_ok in R. destruct R as [O L].
-  unfold expected_weight. rewrite G. apply gen_core_fin_inv in G. destruct G as [Hq F].
-  pose proof atol_pos as Ap.
-  destruct F as [mins Em Ae ->|mins ret cond wts0 Em Na Eacc Hs ->|mins ret cond wts0 rs Em Na Eacc Hs Lw Dn ->
-                |mins ret cond wts0 Em Na Eacc Hs ->].
-  - (* everything exact *)
-    destruct (dget (all_exact probs q) ids) as [[w t]|] eqn:E.
-    + destruct (proj2 (all_exact_spec probs q ids) w t E) as [_ [_ [_ [_ ->]]]]. reflexivity.
-    + rewrite all_exact_get in E.
-      assert (existsb (key_eqb ids) (cart (map (@length Q) probs)) = true) as Ex by (apply existsb_key, In_cart; auto).
-      rewrite Ex in E. simpl in E.
-      destruct (Qltb (jointp probs ids) nonzero_atol) eqn:Es; [|discriminate].
-      apply Qltb_lt in Es. rewrite (skipped_zero probs q mins ids); auto. ring.
-  - (* repaired F9 branch: the residual mass is zero *)
-    destruct (acc_facts probs perms q ret cond wts0 V S Hq Ct Eacc) as [Er [Ec [Ew [En Et]]]].
-    destruct (dget ret ids) as [[w t]|] eqn:E.
-    + destruct (dfs_ret_keys probs perms q ret cond wts0 ids (w, t) S Hq Eacc E) as [_ [Vw _]]. simpl in Vw.
-      rewrite Vw. ring.
-    + rewrite Er in E. pose proof (Et true ids O L (ret_none_not_full _ _ _ E)) as T. fold tpath in T.
-      apply ceil_le_zero in Hs.
-      destruct (find_cond (acc_yields probs perms q) []) as [v|] eqn:Ef.
-      * pose proof (En v eq_refl) as Nv. pose proof (qsum_nonneg v Nv) as Qv.
-        assert (qsum v == 0) as Z by (rewrite Ew in Hs; nra).
-        destruct probs as [|b rest]; destruct ids as [|i ids']; try discriminate.
-        -- exfalso. simpl in Em. inversion Em; subst. simpl in Na. destruct (thr_facts q Hq). lra.
-        -- unfold tpath in T. cbn [gpath] in T. rewrite Ef in T. rewrite (qsum_zero_all v Nv Z i) in T. rewrite <- T. ring.
-      * exfalso. subst wts0. lra.
-  - exfalso. eapply NL; eauto.
-  - (* sampled *)
-    destruct (acc_facts probs perms q ret cond wts0 V S Hq Ct Eacc) as [Er [Ec [Ew [En Et]]]].
-    destruct (dget ret ids) as [[w t]|] eqn:E.
-    + destruct (dfs_ret_keys probs perms q ret cond wts0 ids (w, t) S Hq Eacc E) as [_ [Vw _]]. simpl in Vw.
-      rewrite Vw. ring.
-    + rewrite Er in E. pose proof (Et true ids O L (ret_none_not_full _ _ _ E)) as T. fold tpath in T.
-      rewrite (ecount_top (acc_yields probs perms q) cond probs _ ids Ec).
-      assert (inject_Z (Z.of_nat (Z.to_nat (Qceiling (wts0 * q)))) == inject_Z (Qceiling (wts0 * q))) as Nd
-        by (rewrite Z2Nat.id by lia; reflexivity).
-      assert (0 < inject_Z (Qceiling (wts0 * q))) as Sp.
-      { assert (inject_Z 1 <= inject_Z (Qceiling (wts0 * q))) as X by (rewrite <- Zle_Qle; exact Hs).
-        change (inject_Z 1) with 1 in X. lra. }
-      assert (0 < wts0 * q) as Wp.
-      { pose proof (Qceiling_lt (wts0 * q)) as Lc.
-        assert (inject_Z 0 <= inject_Z (Qceiling (wts0 * q) - 1)) as X by (rewrite <- Zle_Qle; lia).
-        change (inject_Z 0) with 0 in X. lra. }
-      destruct (find_cond (acc_yields probs perms q) []) as [v|] eqn:Ef.
-      * rewrite Nd, T, <- Ew. field. repeat split; intros Z; try (rewrite Z in Wp; lra); lra.
-      * rewrite Nd, T. rewrite Ew in *. field. repeat split; intros Z; try (rewrite Z in Wp; lra); lra.
-Qed.
-
 (* ================= the single-leftover shortcut ================= *)
 (* normalised tables sum to one *)
 Definition cond_norm (y : yield) : Prop :=
@@ -788,6 +728,7 @@ Proof.
   - split; intros st v; simpl; discriminate.
 Qed.
 
+
 Theorem unbiased probs perms q ids c :
   valid probs -> sorting_perms_b probs perms = true -> nonzero_atol * q <= 1 ->
   no_entry_in_cutoff probs perms (1 / q) ->
@@ -795,24 +736,72 @@ Theorem unbiased probs perms q ids c :
   in_range probs ids ->
   expected_weight probs perms (Fin q) ids == q * jointp probs ids.
 Proof.
-  intros V S A NC G R.
-  destruct (gen_core_fin_inv _ _ _ _ G) as [Hq F].
-  destruct F as [mins Em Ae Ec0|mins ret cond wts0 Em Na Eacc Hs Ec0|mins ret cond wts0 rs Em Na Eacc Hs Lw Dn Ec0
-                |mins ret cond wts0 Em Na Eacc Hs Ec0];
-    try (eapply unbiased_partial; eauto; intros m2 r2 c2 w2 rs2 Em2 Na2 Ea2 Hs2 Lw2;
-         rewrite Em in Em2; inversion Em2; subst m2;
-         first [contradiction | (rewrite Eacc in Ea2; inversion Ea2; subst; subst c; lia) | idtac]).
-  - (* the other constructors would have produced a different core *)
-    exfalso. rewrite Eacc in Ea2. inversion Ea2; subst r2 c2 w2.
-    subst c. unfold gen_core in G. clear -G Em Na Eacc Hs Lw2 Hq.
-    (* CSample was returned although the walk completes: impossible *)
-    destruct (Qltb q 1); [discriminate|]. rewrite Em in G.
-    destruct (Qle_bool (1 / q) (qprod mins)) eqn:Ea; [discriminate|].
-    fold (dfs_acc probs perms q) in G. rewrite Eacc in G.
-    destruct (Z.ltb (Qceiling (wts0 * q)) 1); [discriminate|].
-    destruct cond as [|c0 cond'] eqn:Ec.
-    + (* empty dict: the walk over the coefficient vectors themselves *)
-      admit.
-    + rewrite <- Ec in *. rewrite Lw2 in G. destruct (dmem ret rs2); discriminate.
-  - admit.
-Admitted.
+  intros V S A [Cl Ct] G R. apply in_range_idx_ok in R. destruct R as [O L].
+  unfold expected_weight. rewrite G. apply gen_core_fin_inv in G. destruct G as [Hq F].
+  pose proof atol_pos as Ap.
+  destruct F as [mins Em Ae ->|mins ret cond wts0 Em Na Eacc Hs ->|mins ret cond wts0 rs Em Na Eacc Hs Lw Dn ->
+                |mins ret cond wts0 Em Na Eacc Hs ->].
+  - (* everything exact *)
+    destruct (dget (all_exact probs q) ids) as [[w t]|] eqn:E.
+    + destruct (proj2 (all_exact_spec probs q ids) w t E) as [_ [_ [_ [_ ->]]]]. reflexivity.
+    + rewrite all_exact_get in E.
+      assert (existsb (key_eqb ids) (cart (map (@length Q) probs)) = true) as Ex by (apply existsb_key, In_cart; auto).
+      rewrite Ex in E. simpl in E.
+      destruct (Qltb (jointp probs ids) nonzero_atol) eqn:Es; [|discriminate].
+      apply Qltb_lt in Es. rewrite (skipped_zero probs q mins ids); auto. ring.
+  - (* repaired F9 branch: the residual mass is zero *)
+    destruct (acc_facts probs perms q ret cond wts0 V S Hq Ct Eacc) as [Er [Ec [Ew [En Et]]]].
+    destruct (dget ret ids) as [[w t]|] eqn:E.
+    + destruct (dfs_ret_keys probs perms q ret cond wts0 ids (w, t) S Hq Eacc E) as [_ [Vw _]]. simpl in Vw.
+      rewrite Vw. ring.
+    + rewrite Er in E. pose proof (Et true ids O L (ret_none_not_full _ _ _ E)) as T. fold tpath in T.
+      apply ceil_le_zero in Hs.
+      destruct (find_cond (acc_yields probs perms q) []) as [v|] eqn:Ef.
+      * pose proof (En v eq_refl) as Nv. pose proof (qsum_nonneg v Nv) as Qv.
+        assert (qsum v == 0) as Z by (rewrite Ew in Hs; nra).
+        destruct probs as [|b rest]; destruct ids as [|i ids']; try discriminate.
+        -- exfalso. simpl in Em. inversion Em; subst. simpl in Na. destruct (thr_facts q Hq). lra.
+        -- unfold tpath in T. cbn [gpath] in T. rewrite Ef in T. rewrite (qsum_zero_all v Nv Z i) in T. rewrite <- T. ring.
+      * exfalso. subst wts0. lra.
+  - (* single-leftover shortcut: the one map that is left carries the whole residual mass *)
+    destruct (acc_facts probs perms q ret cond wts0 V S Hq Ct Eacc) as [Er [Ec [Ew [En Et]]]].
+    destruct (acc_yields_tables probs perms q V S) as [Hn Hl].
+    pose proof (valid_nonneg _ V) as Nn.
+    destruct probs as [|indep0 rest'] eqn:Ep.
+    { exfalso. simpl in Em. inversion Em; subst. simpl in Na. destruct (thr_facts q Hq). lra. }
+    rewrite <- Ep in *.
+    destruct (walk_top probs (acc_yields probs perms q) cond V Ec Hn Hl indep0 rest' wts0 rs Ep Ew Lw) as [Lr [Gr Gz]].
+    pose proof (dfs_acc_cond_sound probs perms q ret cond wts0 Nn S Eacc) as Cs.
+    destruct (leftover_pos probs cond Nn Cs probs [] [] rs eq_refl eq_refl) as [Pr _]; [simpl; lra|exact Lw|].
+    pose proof (jointp_pos_idx probs Nn rs Pr Lr) as Or.
+    assert (~ has_full (acc_yields probs perms q) rs) as NFr by (apply (ret_none_not_full q); rewrite <- Er; exact Dn).
+    pose proof (Et false rs Or Lr NFr) as Tr. rewrite Gr in Tr.
+    rewrite dget_dset. destruct (key_eqb rs ids) eqn:Ek.
+    + apply key_eqb_eq in Ek. subst ids. rewrite Tr. ring.
+    + apply key_eqb_neq in Ek.
+      destruct (dget ret ids) as [[w t]|] eqn:E.
+      * destruct (dfs_ret_keys probs perms q ret cond wts0 ids (w, t) S Hq Eacc E) as [_ [Vw _]]. simpl in Vw.
+        rewrite Vw. ring.
+      * rewrite Er in E. pose proof (Et false ids O L (ret_none_not_full _ _ _ E)) as T.
+        rewrite (Gz ids L) in T by congruence. rewrite <- T. ring.
+  - (* sampled *)
+    destruct (acc_facts probs perms q ret cond wts0 V S Hq Ct Eacc) as [Er [Ec [Ew [En Et]]]].
+    destruct (dget ret ids) as [[w t]|] eqn:E.
+    + destruct (dfs_ret_keys probs perms q ret cond wts0 ids (w, t) S Hq Eacc E) as [_ [Vw _]]. simpl in Vw.
+      rewrite Vw. ring.
+    + rewrite Er in E. pose proof (Et true ids O L (ret_none_not_full _ _ _ E)) as T. fold tpath in T.
+      rewrite (ecount_top (acc_yields probs perms q) cond probs _ ids Ec).
+      assert (inject_Z (Z.of_nat (Z.to_nat (Qceiling (wts0 * q)))) == inject_Z (Qceiling (wts0 * q))) as Nd
+        by (rewrite Z2Nat.id by lia; reflexivity).
+      assert (0 < inject_Z (Qceiling (wts0 * q))) as Sp.
+      { assert (inject_Z 1 <= inject_Z (Qceiling (wts0 * q))) as X by (rewrite <- Zle_Qle; exact Hs).
+        change (inject_Z 1) with 1 in X. lra. }
+      assert (0 < wts0 * q) as Wp.
+      { pose proof (Qceiling_lt (wts0 * q)) as Lc.
+        assert (inject_Z 0 <= inject_Z (Qceiling (wts0 * q) - 1)) as X by (rewrite <- Zle_Qle; lia).
+        change (inject_Z 0) with 0 in X. lra. }
+      destruct (find_cond (acc_yields probs perms q) []) as [v|] eqn:Ef.
+      * rewrite Nd, T, <- Ew. field. repeat split; intros Z; try (rewrite Z in Wp; lra); lra.
+      * rewrite Nd, T. rewrite Ew in *. field. repeat split; intros Z; try (rewrite Z in Wp; lra); lra.
+Qed.
+
